@@ -32,6 +32,9 @@ pub struct Env {
     pub mutations: MutMenu,
     /// At the end, leftover unreliable messages are delivered late or dropped (both explored).
     pub leftover_choice: bool,
+    /// Lossy link: mutate messages that are not delivered in a step are lost for good instead
+    /// of staying in flight (so `oldest only` means "the rest is lost").
+    pub lossy: bool,
 }
 
 impl Env {
@@ -41,6 +44,7 @@ impl Env {
             hold_updates: 0,
             mutations: MutMenu::Default,
             leftover_choice: false,
+            lossy: false,
         }
     }
     pub fn full() -> Self {
@@ -49,6 +53,7 @@ impl Env {
             hold_updates: 2,
             mutations: MutMenu::Full,
             leftover_choice: true,
+            lossy: false,
         }
     }
 }
@@ -710,6 +715,9 @@ impl Scenario for ReplCell {
                 }
                 let n = x.sim.deliver_to_client(c, MUT, &sel);
                 x.mut_msgs_delivered += n as u32;
+                if self.env.lossy {
+                    x.sim.clients[c].s2c[MUT].clear();
+                }
                 for ch in 2..x.sim.server_channels.len() {
                     x.sim.deliver_to_client(c, ch, &Sel::All);
                 }
@@ -786,6 +794,26 @@ impl Scenario for ReplCell {
         x.sim.note("closure: lock-step rounds with ticks, everything delivered");
         for _ in 0..self.closure_rounds {
             self.lockstep_round(x, true)?;
+        }
+        if self.oracles.c03 {
+            // Structural probe: a fresh entity visible to everyone forces an update message to
+            // every client, so that the per-frame structural oracle compares each client with
+            // the *final* tick even if nothing else would have been sent to it.
+            let probe = Op::Spawn(PROBE_SLOT, 1 << TA);
+            if x.sim.enabled(probe) {
+                x.sim.note("closure probe: spawn a fresh entity visible to every client");
+                x.sim.apply_op(probe);
+                if self.cfg.vis == Vis::Whitelist {
+                    for c in 0..self.clients() {
+                        let op = Op::Vis(c as u8, PROBE_SLOT, true);
+                        if x.sim.enabled(op) {
+                            x.sim.apply_op(op);
+                        }
+                    }
+                }
+                self.lockstep_round(x, true)?;
+                self.lockstep_round(x, true)?;
+            }
         }
         let mut r = self.final_check(x);
         if r.is_ok() && self.oracles.c11 {
